@@ -57,6 +57,9 @@ pub struct NetCase {
     /// capacity of the queuing wrapper (None = unbounded)
     #[serde(default)]
     pub queue_cap: Option<usize>,
+    /// build the queuing wrapper through its builder with an error handler configured
+    #[serde(default)]
+    pub queue_handler: bool,
     pub via_client: bool,
     pub max_datagram: Option<usize>,
     pub tasks: Vec<Vec<NOp>>,
@@ -257,9 +260,17 @@ fn sim_main(case: NetCase) -> Obs {
         ($sink:expr) => {{
             let sink = $sink;
             if case.queuing {
-                let q = match case.queue_cap {
-                    Some(c) => QueuingMetricSink::with_capacity(sink, c),
-                    None => QueuingMetricSink::from(sink),
+                let q = if case.queue_handler {
+                    let mut b = QueuingMetricSink::builder();
+                    if let Some(c) = case.queue_cap {
+                        b = b.with_capacity(c);
+                    }
+                    b.with_error_handler(|_e: std::io::Error| {}).build(sink)
+                } else {
+                    match case.queue_cap {
+                        Some(c) => QueuingMetricSink::with_capacity(sink, c),
+                        None => QueuingMetricSink::from(sink),
+                    }
                 };
                 if case.via_client {
                     let a = Arc::new(q.clone());
@@ -461,7 +472,7 @@ impl Engine for E5 {
         match focus {
             "C12" => &["lock_contended", "interleaved_batches", "concurrent_flush", "stream_through_queuing"],
             "C13" => &["wide_utf8", "whitespace_edged", "max_size_datagram", "emsgsize", "nonblocking_eagain", "send_error_returned"],
-            "C14" => &["concurrent_stats_updates", "stats_through_queuing", "stats_through_bounded_queue_with_refusals", "dropped_counted", "stats_checked"],
+            "C14" => &["concurrent_stats_updates", "stats_through_queuing", "stats_through_bounded_queue_with_refusals", "stats_through_queue_with_handler", "dropped_counted", "stats_checked"],
             _ => &[],
         }
     }
@@ -592,7 +603,8 @@ impl Engine for E5 {
             sched = SchedSpec::generate(&mut sch, &[35, 20, 25, 10, 10]);
         }
         let queue_cap = if queuing && cfg.chance(1, 2) { Some(*cfg.pick(&[1usize, 2, 4])) } else { None };
-        NetCase { sched, sink, cap, addr_form: cfg.below(4) as u8, nonblocking, queuing, queue_cap, via_client, max_datagram, tasks, plan }
+        let queue_handler = queuing && cfg.chance(1, 2);
+        NetCase { sched, sink, cap, addr_form: cfg.below(4) as u8, nonblocking, queuing, queue_cap, queue_handler, via_client, max_datagram, tasks, plan }
     }
 
     fn pin_schedule(case: &NetCase, o: &Outcome) -> NetCase {
@@ -678,6 +690,11 @@ impl Engine for E5 {
         if case.queue_cap.is_some() {
             let mut c = case.clone();
             c.queue_cap = None;
+            v.push(c);
+        }
+        if case.queue_handler {
+            let mut c = case.clone();
+            c.queue_handler = false;
             v.push(c);
         }
         for t in 0..case.tasks.len() {
@@ -993,6 +1010,9 @@ fn judge(case: &NetCase, obs: &Obs, end_tasks: &[TaskInfo], out: &mut Outcome, w
             out.probe("stats_checked");
             if case.queuing {
                 out.probe("stats_through_queuing");
+                if case.queue_handler {
+                    out.probe("stats_through_queue_with_handler");
+                }
                 if case.queue_cap.is_some() && emits.iter().any(|e| matches!(e.res, Res::Err(_))) {
                     out.probe("stats_through_bounded_queue_with_refusals");
                 }
